@@ -130,6 +130,11 @@ def weighted_var(x, weights=None):
     if weights is None:
         weights = np.ones(len(x))
 
+    # Only the relative sizes of the weights matter. Normalise them in floating point first so
+    # that their squares neither wrap around (integer weights) nor under- or overflow
+    weights = np.asarray(weights, dtype=float)
+    weights = weights / np.sum(weights)
+
     V_1 = np.sum(weights)
     V_2 = np.sum(weights ** 2)
 
